@@ -86,6 +86,7 @@ func (zp *ZoneParser) generate(l lex) (RR, bool) {
 	zp.sub = NewZoneParser(r, zp.origin, zp.file)
 	zp.sub.includeDepth, zp.sub.includeAllowed = zp.includeDepth, zp.includeAllowed
 	zp.sub.generateDisallowed = true
+	zp.sub.generateLeft = (end-start)/step + 1
 	zp.sub.SetDefaultTTL(defaultTtl)
 	return zp.subNext()
 }
